@@ -103,11 +103,11 @@ def Task.isIdle : Task → Bool
 /-- number of atomic steps a task can still take (upper bound) -/
 def Task.size : Task → Nat
   | .idle => 0
-  | .start o => 3 * o.refs.length + 3
-  | .keeping o _ rest => rest.length + 2 * o.refs.length + 2
-  | .storing o => 2 * o.refs.length + 1
-  | .deps _ rest => 2 * rest.length
-  | .depWrite _ _ rest => 2 * rest.length + 1
+  | .start o => 3 * o.refs.length + 4
+  | .keeping o _ rest => rest.length + 2 * o.refs.length + 3
+  | .storing o => 2 * o.refs.length + 2
+  | .deps _ rest => 2 * rest.length + 1
+  | .depWrite _ _ rest => 2 * rest.length + 2
 
 def afterKeep (o : Obj) (need : Bool) : Task := if need then .storing o else .idle
 
